@@ -338,6 +338,14 @@ def oneof_programs():
     out += variants(p, [[R({'U1': ['raise:E1'], 'S': ['label:l2']})], [R({'U1': ['raise:E1'], 'S': ['label:l1']})],
                         [R({'K1': ['raise:E1'], 'S': ['label:l2']})], [R({'S': ['label:l2']})]],
                     ['u1fails_l2', 'u1fails_l1', 'k1fails_l2', 'ok_l2'])
+    # a candidate of a second one-of depends on the consumer of a first one-of that had a losing candidate: the loser's
+    # stored failure must not make the second one-of's candidates fail (random generator, seed 2 / 6)
+    nodes = [N('A'), N('K1', I('p1', 'A')), N('K2', I('p1', 'A')), N('M', OO('p1', ['K1', 'K2'])), N('W', I('p1', 'A'), I('p2', 'M')),
+             N('L1', I('p1', 'W')), N('L2', I('p1', 'W')), N('Q', OO('p1', ['L1', 'L2'])), N('O', I('p1', 'M'), I('p2', 'W'), I('p3', 'Q'))]
+    p = P('oneof_after_oneof', nodes, 'A', 'O', tags=['oneof'])
+    out += variants(p, [[R({'K1': ['raise:E3'], 'L1': ['raise:E3']})], [R({'K1': ['raise:E3']})], [R({'L1': ['raise:E1']})],
+                        [R({'K1': ['raise:E3'], 'L1': ['raise:E3'], 'L2': ['raise:E2']})]],
+                    ['k1_l1', 'k1', 'l1', 'k1_l1_l2'])
     # retry inside a candidate
     nodes = [N('A'), N('K1', I('p1', 'A'), attempts=2), N('K2', I('p1', 'A')), N('O', OO('p1', ['K1', 'K2']))]
     p = P('oneof_retry', nodes, 'A', 'O', tags=['oneof', 'retry'])
